@@ -147,6 +147,7 @@ func callWithTimeout(f func()) bool {
 func buildCatalogue() {
 	registerDynamicTypes()
 	registerSourceTypes()
+	registerFillTypes()
 	var names []string
 	protoregistry.GlobalTypes.RangeMessages(func(mt protoreflect.MessageType) bool {
 		n := string(mt.Descriptor().FullName())
@@ -953,6 +954,34 @@ func execOp(e *Env, p *Prepared) (out Outcome) {
 			return fail(err)
 		}
 		return Outcome{Class: "ok", Canon: canonProto(msg)}
+	case "fill":
+		// first use of several hundred distinct small types in one call: makes the shared cache large
+		start, n := int(p.Spec.ValSeed%1600), 550+int((p.Spec.ValSeed>>16)%300)
+		h := sha256.New()
+		for i := 0; i < n; i++ {
+			mt := fillTypes[(start+i)%len(fillTypes)]
+			m := mt.New()
+			m.Set(mt.Descriptor().Fields().ByName("note"), protoreflect.ValueOfString("n"))
+			m.Set(mt.Descriptor().Fields().ByName("kind"), protoreflect.ValueOfEnum(1))
+			if e.codec == nil {
+				r := refl
+				if r == nil {
+					return Outcome{Class: "ok", Canon: "no-reflector"}
+				}
+				root, err := r.NewRoot(m)
+				if err != nil || root == nil {
+					return Outcome{Class: "error", Text: fmt.Sprintf("fill %s: NewRoot: %v", mt.Descriptor().Name(), err)}
+				}
+				h.Write([]byte(mt.Descriptor().Name()))
+				continue
+			}
+			b, err := e.codec.ProtoToJSON(m)
+			if err != nil {
+				return Outcome{Class: "error", Text: fmt.Sprintf("fill %s: %v", mt.Descriptor().Name(), err)}
+			}
+			h.Write(b)
+		}
+		return Outcome{Class: "ok", Canon: hex.EncodeToString(h.Sum(nil)[:10])}
 	case "walk":
 		msg := inputMsg(p)
 		if refl == nil {
@@ -1192,6 +1221,17 @@ func genWorkload(seed uint64, deep bool) *Workload {
 		for i := 0; i < n; i++ {
 			w.Warm = append(w.Warm, mkOp())
 		}
+	}
+	if rng.Bool(0.012) {
+		// a LARGE shared cache: one more task (and, half of the time, the warm-up too) first-uses
+		// 550-850 small types (two cache entries each) while the others work
+		fill := func() OpSpec {
+			return OpSpec{Kind: "fill", Type: "test.zzbad.v1.Leaf", ValSeed: rng.Uint64()}
+		}
+		if rng.Bool(0.5) {
+			w.Warm = append(w.Warm, fill())
+		}
+		w.Tasks = append(w.Tasks, []OpSpec{fill()})
 	}
 	return w
 }
